@@ -46,7 +46,10 @@ def impl_cli_from_payloads(eb, slots, d):
         with open(out, "rb") as fh:
             return {"ok": fh.read().hex()}
     except Exception as e:  # noqa
-        return common.impl_err(e)
+        r = common.impl_err(e)
+        if common.was_written(out):
+            r["wrote"] = True            # a refused run must leave the output path as it found it
+        return r
 
 
 def impl_merge(eb, files, d):
@@ -59,13 +62,20 @@ def impl_merge(eb, files, d):
             fh.write(b)
         paths.append(f)
     out = os.path.join(d, "merged.bin")
-    common.make_stale(out)
+    in_place = len(paths) >= 1 and (sum(len(b) for b in files) + len(files)) % 4 == 0       # the output names the first input file itself
+    if in_place:
+        out = paths[0]
+    else:
+        common.make_stale(out)
     try:
         mod.main(cache_create_subcommand="merge", eb_size=eb, input=paths, output_file=out)
         with open(out, "rb") as fh:
             return {"ok": fh.read().hex()}
     except Exception as e:  # noqa
-        return common.impl_err(e)
+        r = common.impl_err(e)
+        if (open(out, "rb").read() != files[0]) if in_place else common.was_written(out):
+            r["wrote"] = True
+        return r
 
 
 def payload(n, salt=0):
@@ -212,6 +222,10 @@ def run(tier: str, seed: int) -> int:
             if i % 997 == 0:
                 res.sample({"op": req["op"], "eb": eb, "slots": [[u, f"{len(p)//2} bytes"] for u, p in expslots][:6],
                             "impl": (impl.get("ok", "")[:48] + "...") if "ok" in impl else impl})
+            wrote = impl.pop("wrote", False) if isinstance(impl, dict) else False
+            if wrote:
+                res.spec_failures.append({"op": req["op"], "request": _short(req), "impl": impl,
+                                          "what": "the command failed but wrote to the output path (a refused run must not leave or replace a cache file)"})
             if impl != model:
                 res.mismatches.append({"op": req["op"], "request": _short(req), "impl": _short(impl), "model": _short(model)})
             if i in chk and not chk[i]:
@@ -219,11 +233,84 @@ def run(tier: str, seed: int) -> int:
                 if expslots and all(u for u, _ in expslots):
                     res.spec_failures.append({"op": req["op"], "request": req, "impl_output": impl["ok"],
                                               "what": "Cache.check (Spec.C10) is false on the file the implementation wrote"})
+    from_envelope_cases(res, drv, tier, rng)
     drv.close()
     res.exhaustive = True
     res.notes["exhaustive_scope"] = ("every eb in 1..%d x every residue class x {first, later slot}; the remaining streams are sampled"
                                      % (64 if tier == "quick" else 512))
     return finish(res, st, RULE, NOTE)
+
+
+def from_envelope_cases(res, drv, tier, rng):
+    """cache_create from_envelope: hierarchies with several dependency envelopes next to each other; every payload of every level lands in the
+    cache exactly once (in the order met), the file is one well-formed aligned map"""
+    import tempfile
+    from collections import Counter
+    from .. import suitio
+    from .c11 import impl_cache
+    for j in range(8 if tier == "quick" else 80):
+        ndeps = 2 + j % 4
+
+        def leaf(t, depth=0):
+            e = {"SUIT_Envelope_Tagged": {
+                "suit-authentication-wrapper": {"SuitDigest": {"suit-digest-algorithm-id": "cose-alg-sha-256"}},
+                "suit-manifest": {"suit-manifest-version": 1, "suit-manifest-sequence-number": t + 1},
+                "suit-integrated-payloads": {f"#img{j}_{t}_{u}": payload(5 + u + t, t).hex() for u in range(1 + t % 2)}}}
+            if depth == 0 and t % 3 == 0:
+                e["SUIT_Envelope_Tagged"]["suit-integrated-dependencies"] = {f"dep_inner{j}_{t}.suit": leaf(t + 10, 1)}
+            return e
+        names = [f"dep_{chr(97 + t)}{j}.suit" for t in range(ndeps)]
+        members = {}
+        order = rng.choice(["deps-first", "payload-first", "payload-between"])
+        desc = {"SUIT_Envelope_Tagged": {"suit-authentication-wrapper": {"SuitDigest": {"suit-digest-algorithm-id": "cose-alg-sha-256"}},
+                                         "suit-manifest": {"suit-manifest-version": 1, "suit-manifest-sequence-number": 9}}}
+        deps = {nm: leaf(t) for t, nm in enumerate(names)}
+        pl = {f"#root{j}": payload(9, j).hex()}
+        if order == "deps-first":
+            desc["SUIT_Envelope_Tagged"]["suit-integrated-dependencies"] = deps
+            desc["SUIT_Envelope_Tagged"]["suit-integrated-payloads"] = pl
+        else:
+            desc["SUIT_Envelope_Tagged"]["suit-integrated-payloads"] = pl
+            desc["SUIT_Envelope_Tagged"]["suit-integrated-dependencies"] = deps
+        created = suitio.impl_create(desc)
+        if "ok" not in created:
+            continue
+        b = bytes.fromhex(created["ok"])
+        eb = rng.choice([1, 4, 8, 16, 64])
+        dep_re = r"dep_.*\.suit"
+        with tempfile.TemporaryDirectory(prefix="verif_c10e_") as d:
+            impl = impl_cache(b, eb, None, dep_re, d)
+        all_names = names + [f"dep_inner{j}_{t}.suit" for t in range(ndeps)]
+        model = drv.call({"op": "extract.cache", "eb": eb, "envelope": b.hex(), "deps": all_names})
+        res.case(["from-envelope", j, ndeps, order, eb], nontrivial=True)
+        res.count("kind:from_envelope")
+        ci = {k: v for k, v in impl.items() if k != "wrote"}
+        if ci != model:
+            res.mismatches.append({"op": "extract.cache", "request": {"eb": eb, "deps": ndeps, "order": order}, "impl": _short(ci), "model": _short(model)})
+        if "ok" not in impl:
+            res.spec_failures.append({"op": "cache_create from_envelope", "deps": ndeps, "impl": impl, "what": "from_envelope failed on a valid hierarchy"})
+            continue
+        items = drv.call({"op": "cache.read", "out": impl["ok"]["cache"]})
+        if "ok" not in items:
+            res.spec_failures.append({"op": "cache_create from_envelope", "deps": ndeps, "what": "the cache written from an envelope is not a well-formed cache map"})
+            continue
+        got = Counter((bytes.fromhex(i["key"]).decode(), i["value"]) for i in items["ok"] if i["key"])
+        exp = Counter()
+
+        def collect(e):
+            for n, v in (e["SUIT_Envelope_Tagged"].get("suit-integrated-payloads") or {}).items():
+                exp[(n, v)] += 1
+            for n, v in (e["SUIT_Envelope_Tagged"].get("suit-integrated-dependencies") or {}).items():
+                collect(v)
+        collect(desc)
+        if got != exp:
+            res.spec_failures.append({"op": "cache_create from_envelope", "deps": ndeps, "order": order,
+                                      "missing": sorted(k[0] for k in (exp - got)), "unexpected": sorted(k[0] for k in (got - exp)),
+                                      "what": "the cache does not hold exactly the payloads of all levels of the hierarchy"})
+        for it in items["ok"]:
+            if it["key"] and it["offset"] > 1 and it["offset"] % eb != 0:
+                res.spec_failures.append({"op": "cache_create from_envelope", "slot": bytes.fromhex(it["key"]).decode(), "offset": it["offset"], "eb": eb,
+                                          "what": "a slot written from an envelope does not start at a multiple of the erase-block size"})
 
 
 def _short(x):
